@@ -19,7 +19,7 @@ import sys
 from collections import Counter
 from pathlib import Path
 
-from .kit import H, Scratch, Trace, setup_repo_path, short, stream, weighted
+from .kit import pristine, H, Scratch, Trace, setup_repo_path, short, stream, weighted
 from .gen import schema as S
 from . import parsekit as K
 
@@ -767,7 +767,7 @@ def minimise(v):
     def fails(ops):
         if not ops or ops[-1] != last:
             return False
-        return any(x["signature"] == key for x in check_workload({"ops": ops}))
+        return any(x["signature"] == key for x in pristine(check_workload, {"ops": ops}))
 
     head = ddmin(list(w["ops"][:-1]), lambda h: fails(h + [last]), 40) if len(w["ops"]) > 2 else w["ops"][:-1]
     if len(head) == 1 and fails([last]):
@@ -776,7 +776,7 @@ def minimise(v):
     if not fails(ops):
         return v
     out = dict(v, workload={"ops": ops}, minimised=True)
-    vs = [x for x in check_workload(out["workload"]) if x["signature"] == key]
+    vs = [x for x in pristine(check_workload, out["workload"]) if x["signature"] == key]
     if vs:
         out["message"] = vs[0]["message"]
     return out
